@@ -36,3 +36,14 @@ for d in sorted(glob.glob(os.path.join(VERIF, 'seeded', '*'))):
 print('| seeded change | targets | file(s) | what it does | confirmed | caught by (bold: with a concrete failing input) |')
 print('|---|---|---|---|---|---|')
 print('\n'.join(rows))
+
+if __name__ == '__main__':
+    import sys
+    if '--update' in sys.argv:
+        # replace the table between the markers in DESIGN.md
+        p = os.path.join(VERIF, 'DESIGN.md')
+        t = open(p).read()
+        a, b = '<!-- seedreport:begin -->\n', '<!-- seedreport:end -->'
+        i, j = t.index(a) + len(a), t.index(b)
+        table = '| seeded change | targets | file(s) | what it does | confirmed | caught by (bold: with a concrete failing input) |\n|---|---|---|---|---|---|\n' + '\n'.join(rows) + '\n'
+        open(p, 'w').write(t[:i] + table + t[j:])
